@@ -37,6 +37,7 @@ from dask_expr._expr import (
     PartitionsFiltered,
     Projection,
     ToSeriesIndex,
+    _is_strictly_increasing,
     determine_column_projection,
     is_filter_pushdown_available,
 )
@@ -1220,13 +1221,13 @@ class _SetIndexPost(Blockwise):
         if self.frame.npartitions < len(divisions) - 1:
             part_filter = list(self.frame.find_operations(PartitionsFiltered))
             if len(part_filter) > 0:
+                partitions = list(part_filter[0]._partitions)
+                if not _is_strictly_increasing(partitions):
+                    # reordered or repeated partitions have no sorted divisions
+                    return (None,) * (len(partitions) + 1)
                 return tuple(
-                    [
-                        div
-                        for i, div in enumerate(divisions)
-                        if i in part_filter[0]._partitions
-                    ]
-                    + [divisions[-1]]
+                    [divisions[i] for i in partitions]
+                    + [divisions[partitions[-1] + 1]]
                 )
             else:
                 return self.frame.divisions
